@@ -348,6 +348,9 @@ class SFTPFile(BufferedFile):
 
         :param size: the new size of the file
         """
+        # as with Python file objects, data still in the write buffer is
+        # written out before the size changes
+        self.flush()
         self.sftp._log(
             DEBUG, "truncate({}, {!r})".format(hexlify(self.handle), size)
         )
